@@ -97,7 +97,9 @@ func exprPool(class string) []string {
 			"0x7fffffffffffffff + 0x7fffffffffffffff", "\"a\" matches \"(\"", "S matches \"[\"",
 			// patterns that become a literal only when the optimizer folds them: invalid ones fail at run time, never panic
 			"S matches (\"(\" + \"a\")", "\"ab\" matches \"[a-\" + \"z\"", "S matches (\"(?=\" + \"a)\")", "S matches (\"^a\" + \"b\")",
-			"all(Ss, {# matches (\"(\" + \"a\")})"}
+			"all(Ss, {# matches (\"(\" + \"a\")})",
+			// a pointer to a map where a map is expected
+			"S in PM", "\"a\" not in PM", "1 in PM", "len(PM)", "PM.a", "PM[S]"}
 	case "widetext": // several lines, multi-byte runes before the place an error is reported at
 		return []string{"S == \"こんにちは世界、こんにちは世界\" ||\nXs[10] > 0", "\"日本語日本語日本語\" +\n1", "\"\U0001F600\U0001F600\U0001F600\" == S ||\n\nBoom(1) > 0",
 			"[\"ééééééééé\",\n Zq]", "\"世界世界世界世界\"\n  @", "S == \"é\" ? 1 :\n\t(\"世界\" + 1)"}
